@@ -27,13 +27,18 @@ TC_SETS = {0: [(0x11, 100), (0x16, 101), (0x1B, 102)],
            2: [(0x12A, 7), (0x52A, 7), (0x12A, 7 + 256)],
            3: [(0x7FF, 0x3FFF), (0x3FF, 0x3FFF), (0x7FF, 0x1FFF)]}
 CUR_SET = 0
+CUR_ROUTE = "ctor"
+REPORT_ROUTES = ("ctor", "unpacked", "from_tm")      # how the report objects handed to add_tm came into being
 
 
-def env(set_id=None):
-    """Pre-built telecommands, request ids and report objects (add_tm does not modify the report)."""
+def env(set_id=None, route=None):
+    """Pre-built telecommands, request ids and report objects (add_tm does not modify the report).  With the routes
+    'unpacked' / 'from_tm' every report of the alphabet is parsed from its packed octets, all of them before any is fed to
+    the tracker (a receiver that parses a batch of telemetry first), so all parsed reports are alive at the same time."""
     set_id = CUR_SET if set_id is None else set_id
-    if set_id in _ENVS:
-        return _ENVS[set_id]
+    route = CUR_ROUTE if route is None else route
+    if (set_id, route) in _ENVS:
+        return _ENVS[(set_id, route)]
     from spacepackets.ecss.tc import PusTc
     from spacepackets.ecss.pus_verificator import PusVerificator, StatusField
     from spacepackets.ecss.pus_1_verification import Service1Tm, Subservice, VerificationParams, FailureNotice
@@ -52,6 +57,12 @@ def env(set_id=None):
                 step = None if st is None else PacketFieldEnum.with_byte_size(1, st)
                 notice = FailureNotice(PacketFieldEnum.with_byte_size(1, 7), b"") if sub % 2 == 0 else None
                 tm = Service1Tm(apid=0x30, subservice=Subservice(sub), timestamp=b"", verif_params=VerificationParams(RequestId.from_pus_tc(tcs[t]), step, notice))
+                if route != "ctor":
+                    from spacepackets.ecss.pus_1_verification import UnpackParams
+                    from spacepackets.ecss.tm import PusTm
+                    raw = bytes(tm.pack())
+                    up = UnpackParams(0, 1, 1)
+                    tm = Service1Tm.unpack(raw, up) if route == "unpacked" else Service1Tm.from_tm(PusTm.unpack(raw, 0), up)
                 letters.append(("add_tm", t, sub, st, tm))
     for t in range(N_TC):
         letters.append(("remove_entry", t))
@@ -59,8 +70,8 @@ def env(set_id=None):
     from spverif.ref import pus as _P
     keys_model = [int.from_bytes(_P.request_id(0, 1, 1, a, 3, c), "big") for a, c in TC_SETS[set_id]]
     assert len(set(keys_model)) == N_TC
-    _ENVS[set_id] = dict(PusVerificator=PusVerificator, tcs=tcs, rids=rids, keys=keys_model, letters=letters, StatusField=StatusField)
-    return _ENVS[set_id]
+    _ENVS[(set_id, route)] = dict(PusVerificator=PusVerificator, tcs=tcs, rids=rids, keys=keys_model, letters=letters, StatusField=StatusField)
+    return _ENVS[(set_id, route)]
 
 
 def letter_name(L):
@@ -192,12 +203,14 @@ def run_history(ctx, idxs, case, cover=None):
 COVER = {"states": set(), "transitions": set()}
 
 
-def k_history(ctx, idxs, tc_set=0):
-    global CUR_SET
+def k_history(ctx, idxs, tc_set=0, route="ctor", letters=None):
+    global CUR_SET, CUR_ROUTE
     CUR_SET = tc_set
+    CUR_ROUTE = route
     E = env()
-    case = {"k": "history", "idxs": list(idxs), "tc_set": tc_set, "letters": [letter_name(E["letters"][i]) for i in idxs][:40]}
-    ctx.case(f"history/set={tc_set}/len={'<=4' if len(idxs) <= 4 else '5+'}", (tc_set,) + tuple(idxs), nontrivial=any(E["letters"][i][0] == "add_tm" for i in idxs),
+    case = {"k": "history", "idxs": list(idxs), "tc_set": tc_set, "route": route, "letters": [letter_name(E["letters"][i]) for i in idxs][:40]}
+    ctx.table("report_route", route)
+    ctx.case(f"history/set={tc_set}/len={'<=4' if len(idxs) <= 4 else '5+'}" + ("" if route == "ctor" else f"/{route}"), (tc_set,) + tuple(idxs), nontrivial=any(E["letters"][i][0] == "add_tm" for i in idxs),
              sample=case if len(idxs) <= 12 else None)
     run_history(ctx, idxs, case, COVER)
 
@@ -238,11 +251,20 @@ def run(ctx):
                 if ctx.mine(i):
                     k_history(ctx, hist, ts)
     ctx.exhaustive.append("all histories of length 1..2 (thorough: 3) for three further telecommand sets whose request ids differ in one high bit only")
+    # reports that were parsed from octets (all parsed before any is fed): all histories to depth 2 (thorough: 3) per route
+    for route in REPORT_ROUTES[1:]:
+        for d in range(1, (2 if ctx.quick else 3) + 1):
+            i = 0
+            for hist in itertools.product(range(n), repeat=d):
+                i += 1
+                if ctx.mine(i):
+                    k_history(ctx, hist, 0, route)
+    ctx.exhaustive.append("all histories of length 1..2 (thorough: 3) with report objects parsed from packed octets (Service1Tm.unpack and Service1Tm.from_tm), parsed as a batch")
     # random long histories, biased towards registering first
     weights = [4 if L[0] == "add_tc" else 1 for L in E["letters"]]
     for j in range(ctx.n(800, 80_000)):
         ln = r.randrange(20, 201)
-        k_history(ctx, r.choices(range(n), weights=weights, k=ln), j % 4)
+        k_history(ctx, r.choices(range(n), weights=weights, k=ln), j % 4, REPORT_ROUTES[(j // 4) % 3])
     ctx.extra["transitions_list"] = sorted([list(a), b] for a, b in COVER["transitions"])
     ctx.extra["abstract_state_space"] = {"states": 162, "transitions": 162 * 8}
     ctx.extra["states_list"] = sorted(list(s) for s in COVER["states"])
@@ -254,6 +276,7 @@ def conclude(ctx):
     ctx.extra["abstract_states_visited"] = len(states)
     ctx.extra["state_input_transitions_exercised"] = len(ctx.extra.pop("transitions_list", []))
     ctx.require(len(states) > 30, f"only {len(states)} abstract states visited")
+    ctx.require(len(ctx.tables.get("report_route", {})) == 3, "not every report construction route was exercised")
     for m in ("tracker.add_tc", "tracker.add_tm", "tracker.remove_entry", "tracker.remove_completed", "tracker.state", "tracker.isolation", "tracker.monotone",
               "tracker.completed_flag", "tracker.remove_exact"):
         ctx.require(ctx.monitors.get(m, {}).get("evaluations", 0) > 0, f"monitor {m} never evaluated")
